@@ -39,6 +39,30 @@ CHECKS = {
             "Builtin parameter types in single-inheritance chains; multi-base inheritance of a name without own "
             "definitions is unspecified; F20/F21 recorded as known findings with defect-model classifiers.",
             "DESIGN.md §4 C17"),
+    "C02": ("exploration",
+            "runtime monitor: executable reference model of priority/specificity/latest vs observed method or error; "
+            "exhaustive small tier + random programs",
+            "Every call's observed outcome (bodies entered, or error kind with no body entered) and resolve() are compared "
+            "with a three-valued reference model; the complete tier of <=4-class hierarchies is enumerated, larger "
+            "programs are random. Disagreements predicted by the frozen layer-index defect model are the known finding F1.",
+            "Trusts issubclass; shapes rejected by Python's own binding count as 'no method'; unsupplied-parameter "
+            "differences are unspecified.",
+            "DESIGN.md §4 C02"),
+    "C04": ("exploration",
+            "runtime differential monitor: long-lived function vs never-called twin on every call of a history (order pinned)",
+            "Each call of a random history (failing calls, nested recurse / call_next / f.next with same and other "
+            "argument types) is repeated on a freshly built twin; outcome trees must be equal.",
+            "Same method set on both sides so no model is needed; iteration order is pinned on both sides.",
+            "DESIGN.md §4 C04"),
+    "C07": ("exploration",
+            "runtime monitor: delegation trees returned by generated bodies vs iterated-removal reference model",
+            "Every body reports itself and what its call_next / f.next returned, so one call yields the whole chain; the "
+            "chain, its terminal error kind and the fresh-call rule are compared with the reference model on plain, "
+            "variant, mixin, method and value-dependent programs; structural laws (no repeat, non-increasing rank) are "
+            "checked model-free.",
+            "Delegation from inside a tied rank is unspecified; F1-family and F22 disagreements are attributed only when "
+            "the frozen transcription predicts the exact observed chain.",
+            "DESIGN.md §4 C07"),
 }
 
 PENDING_REASON = ("check not built yet in this session (runtime-monitoring design exists in DESIGN.md §4); "
